@@ -12,9 +12,11 @@ macro "updater_tie" : tactic => `(tactic| (
   simp (maxSteps := 400000) [rs_eval, chkInt, rs_code, trackingValue, updaterValue, ctimespecValue]
   generalize hM : Updater.step _ _ = M
   repeat' split
-  all_goals (subst hM; simp [Updater.step, extractBound, boundF, classify, leapClass, Updater.record, chk,
+  all_goals (subst hM; try simp [Updater.step, extractBound, boundF, classify, leapClass, Updater.record, chk,
     inI64, I64_MIN, I64_MAX, updaterOutcome, updaterValue, recordValue, ctimespecValue, statusValue,
-    statusName, *])))
+    statusName, *])
+  -- comparisons may come in another normal form than the model's (`x < 3` for `x ≤ 2`): split what is left
+  all_goals (try (split_ifs <;> first | rfl | omega | simp_all))))
 
 set_option maxRecDepth 8000 in
 set_option maxHeartbeats 4000000 in
